@@ -978,9 +978,25 @@ class Translator:
             return got
         ga, gb = grid(lay[0].body), grid(lay[0].orelse)
         sel = [s for s in fn.body if isinstance(s, ast.Assign) and ast.unparse(s.targets[0]) == "task_covars"]
-        want = ("full_covar[..., data_indices + task_indices.unsqueeze(-2), data_indices + task_indices.unsqueeze(-1)]")
-        if len(sel) != 1 or ast.unparse(sel[0].value) != want:
-            bad(sel[0] if sel else fn, "task_covars selection (row = data + task[a], column = data + task[b])")
+        sv = sel[0].value if len(sel) == 1 else None
+        if not (isinstance(sv, ast.Subscript) and ast.unparse(sv.value) == "full_covar" and isinstance(sv.slice, ast.Tuple)
+                and len(sv.slice.elts) == 3 and isinstance(sv.slice.elts[0], ast.Constant) and sv.slice.elts[0].value is Ellipsis):
+            bad(sel[0] if sel else fn, "task_covars selection (full_covar[..., rows, columns])")
+
+        def axis(e):
+            """`data_indices + task_indices.unsqueeze(d)`: data_indices has shape (n, 1, 1); the 1-d task_indices follows the
+            LAST axis of the (n, t, t) result for d in {-2, 0} (shape (1, t)) and the middle one for d in {-1, 1} (shape (t, 1))"""
+            if not (isinstance(e, ast.BinOp) and isinstance(e.op, ast.Add) and ast.unparse(e.left) == "data_indices"
+                    and isinstance(e.right, ast.Call) and ast.unparse(e.right.func) == "task_indices.unsqueeze"
+                    and len(e.right.args) == 1 and not e.right.keywords):
+                bad(e, "index grid expression (data_indices + task_indices.unsqueeze(d))")
+            d = ast.unparse(e.right.args[0])
+            if d in ("-2", "0"):
+                return "y"
+            if d in ("-1", "1"):
+                return "x"
+            bad(e, "unsqueeze dimension of a 1-d tensor")
+        self.di_axes = (axis(sv.slice.elts[1]), axis(sv.slice.elts[2]))
         self.grids = {k: (ga[k][0], gb[k][0]) for k in ("data_indices", "task_indices")}
 
     # ------------------------------------------------------------------ view / transpose sites
@@ -1090,6 +1106,20 @@ class Translator:
                     bad(fn, f"{meth} returns a {r[2]} x {r[3]} view, expected n x t")
                 paths.append(r[1])
             out[lean] = ("mat", paths)
+        # rsample: the base-sample matrix handed to the base class (`base_samples.view(*sample_shape, *self.loc.shape)`)
+        fn = self.methods.get("rsample")
+        guards = [s for s in fn.body if isinstance(s, ast.If) and ast.unparse(s.test) == "base_samples is not None"]
+        if len(guards) != 1:
+            bad(fn, "expected one `if base_samples is not None:` in rsample")
+        asg = [s for s in guards[0].body if isinstance(s, ast.Assign) and ast.unparse(s.targets[0]) == "base_samples"]
+        if len(asg) != 1:
+            bad(guards[0], "expected one re-shaping of base_samples")
+        v = asg[0].value
+        if not (isinstance(v, ast.Call) and ast.unparse(v.func) == "base_samples.view" and not v.keywords
+                and [ast.unparse(a) for a in v.args] == ["*sample_shape", "*self.loc.shape"]):
+            bad(asg[0], "base_samples re-shaping (expected a view onto the shape of the flat loc)")
+        # an n x t matrix viewed as a flat vector of n·t entries: row-major, whatever the layout
+        out["baseSamplesArg"] = ("flat", ["(reshapeFlat t base)", "(reshapeFlat t base)"])
         # log_prob: matrix -> flat vector handed to the base class
         fn = self.methods.get("log_prob")
         if fn is None or [a.arg for a in fn.args.args] != ["self", "value"]:
@@ -1128,28 +1158,38 @@ class Translator:
         cov = kw.get("covariance_matrix")
         if not (isinstance(cov, ast.Call) and isinstance(cov.func, ast.Name) and cov.func.id in ops
                 and ast.unparse(cov.args[0]) == "batch_mvn.lazy_covariance_matrix"
-                and [(k.arg, ast.unparse(k.value)) for k in cov.keywords] == [("block_dim", "task_dim")]):
+                and [k.arg for k in cov.keywords] == ["block_dim"]):
             bad(calls[0], "from_batch_mvn covariance")
-        want_mean = "batch_mvn.mean.permute(*range(0, task_dim), *range(task_dim + 1, num_dim), task_dim)"
-        if ast.unparse(kw.get("mean", ast.Constant(0))) != want_mean:
-            bad(calls[0], "from_batch_mvn mean permutation (task dimension moved last)")
+        self.from_batch_plan(fn, calls[0], kw, cov)
         inter = ast.unparse(kw["interleaved"]).lower() if "interleaved" in kw else self.init_default_interleaved()
         out["fromBatchMvn"] = (ops[cov.func.id], inter)
         # from_independent_mvns
         fn = self.methods.get("from_independent_mvns")
-        src = [ast.unparse(s) for s in fn.body]
-        if "mean = torch.stack([mvn.mean for mvn in mvns], -1)" not in src:
-            bad(fn, "from_independent_mvns mean (tasks stacked last)")
+        stk = [s for s in fn.body if isinstance(s, ast.Assign) and ast.unparse(s.targets[0]) == "mean"]
+        if len(stk) != 1 or not (_is_call(stk[0].value, "torch.stack") and len(stk[0].value.args) == 2
+                                 and ast.unparse(stk[0].value.args[0]) == "[mvn.mean for mvn in mvns]" and not stk[0].value.keywords):
+            bad(fn, "from_independent_mvns mean (a stack of the task means)")
+        stack_dim = self.cint(stk[0].value.args[1], {}, {})
         blocks = [s for s in fn.body if isinstance(s, ast.Assign) and ast.unparse(s.targets[0]) == "covar_lazy"]
         if len(blocks) != 1 or not (isinstance(blocks[0].value, ast.Call) and isinstance(blocks[0].value.func, ast.Name)
                                     and blocks[0].value.func.id in ops
                                     and ast.unparse(blocks[0].value.args[0]) == "covar_blocks_lazy"
-                                    and [(k.arg, ast.unparse(k.value)) for k in blocks[0].value.keywords] == [("block_dim", "0")]):
+                                    and [k.arg for k in blocks[0].value.keywords] == ["block_dim"]):
             bad(fn, "from_independent_mvns block operator")
+        block_dim = self.cint(blocks[0].value.keywords[0].value, {}, {})
         cat = [s for s in fn.body if isinstance(s, ast.Assign) and ast.unparse(s.targets[0]) == "covar_blocks_lazy"]
-        if len(cat) != 1 or not ast.unparse(cat[0].value).startswith(
-                "CatLinearOperator(*[mvn.lazy_covariance_matrix.unsqueeze(0) for mvn in mvns], dim=0"):
-            bad(fn, "from_independent_mvns block stacking (task = leading dimension)")
+        cv = cat[0].value if len(cat) == 1 else None
+        if not (cv is not None and _is_call(cv, "CatLinearOperator") and len(cv.args) == 1 and isinstance(cv.args[0], ast.Starred)
+                and isinstance(cv.args[0].value, ast.ListComp) and ast.unparse(cv.args[0].value.generators[0]).strip() == "for mvn in mvns"
+                and sorted(k.arg for k in cv.keywords) == ["dim", "output_device"]):
+            bad(fn, "from_independent_mvns block stacking (CatLinearOperator over the tasks)")
+        elt = cv.args[0].value.elt
+        if not (isinstance(elt, ast.Call) and ast.unparse(elt.func) == "mvn.lazy_covariance_matrix.unsqueeze"
+                and len(elt.args) == 1 and not elt.keywords):
+            bad(elt, "from_independent_mvns block stacking (unsqueezed task covariances)")
+        unsq_dim = self.cint(elt.args[0], {}, {})
+        cat_dim = self.cint([k.value for k in cv.keywords if k.arg == "dim"][0], {}, {})
+        self.indep_plan = (stack_dim, unsq_dim, cat_dim, block_dim)
         ret = fn.body[-1]
         if not (isinstance(ret, ast.Return) and isinstance(ret.value, ast.Call) and ast.unparse(ret.value.func) == "cls"):
             bad(ret, "from_independent_mvns result")
@@ -1167,11 +1207,96 @@ class Translator:
         # from_repeated_mvn delegates
         fn = self.methods.get("from_repeated_mvn")
         ret = fn.body[-1]
-        want = "cls.from_batch_mvn(mvn.expand(torch.Size([num_tasks]) + mvn.batch_shape), task_dim=0)"
-        if not (isinstance(ret, ast.Return) and ast.unparse(ret.value) == want):
-            bad(ret, "from_repeated_mvn (expected delegation to from_batch_mvn with the task dimension in front)")
+        rv = ret.value if isinstance(ret, ast.Return) else None
+        if not (isinstance(rv, ast.Call) and ast.unparse(rv.func) == "cls.from_batch_mvn" and len(rv.args) == 1
+                and [k.arg for k in rv.keywords] == ["task_dim"] and isinstance(rv.args[0], ast.Call)
+                and ast.unparse(rv.args[0].func) == "mvn.expand" and len(rv.args[0].args) == 1 and not rv.args[0].keywords):
+            bad(ret, "from_repeated_mvn (expected delegation to from_batch_mvn on an expanded copy)")
+        self.repeated_plan = (self.shape_list(rv.args[0].args[0]), self.cint(rv.keywords[0].value, {}, {}))
         out["fromRepeatedMvn"] = out["fromBatchMvn"]
         self.ctors = out
+
+    # ---- integer expressions of the constructors: names, ints, + - *, conditional expressions; `atoms` maps source text to parameters
+    def cint(self, node, env, atoms):
+        u = ast.unparse(node)
+        if u in atoms:
+            return atoms[u]
+        if isinstance(node, ast.Constant) and isinstance(node.value, int) and not isinstance(node.value, bool):
+            return str(node.value) if node.value >= 0 else f"({node.value})"
+        if isinstance(node, ast.Name):
+            if node.id in env:
+                return env[node.id]
+            bad(node, "unknown name")
+        if isinstance(node, ast.UnaryOp) and isinstance(node.op, ast.USub):
+            return f"(-{self.cint(node.operand, env, atoms)})"
+        if isinstance(node, ast.BinOp) and isinstance(node.op, (ast.Add, ast.Sub, ast.Mult)):
+            op = {ast.Add: "+", ast.Sub: "-", ast.Mult: "*"}[type(node.op)]
+            return f"({self.cint(node.left, env, atoms)} {op} {self.cint(node.right, env, atoms)})"
+        if isinstance(node, ast.IfExp):
+            return (f"(if {self.ccond(node.test, env, atoms)} then {self.cint(node.body, env, atoms)} "
+                    f"else {self.cint(node.orelse, env, atoms)})")
+        bad(node, "integer expression in a constructor")
+
+    def ccond(self, node, env, atoms):
+        if isinstance(node, ast.BoolOp):
+            op = " ∧ " if isinstance(node.op, ast.And) else " ∨ "
+            return "(" + op.join(self.ccond(v, env, atoms) for v in node.values) + ")"
+        if isinstance(node, ast.UnaryOp) and isinstance(node.op, ast.Not):
+            return f"(¬ {self.ccond(node.operand, env, atoms)})"
+        if isinstance(node, ast.Compare) and len(node.ops) == 1 and type(node.ops[0]) in self.CMP:
+            return f"({self.cint(node.left, env, atoms)} {self.CMP[type(node.ops[0])]} {self.cint(node.comparators[0], env, atoms)})"
+        bad(node, "condition in a constructor")
+
+    def shape_list(self, node):
+        """`torch.Size([a, ...]) + x.batch_shape` style shape expressions -> lean List Int text over `num_tasks`, `batch_shape`"""
+        if isinstance(node, ast.BinOp) and isinstance(node.op, ast.Add):
+            return f"({self.shape_list(node.left)} ++ {self.shape_list(node.right)})"
+        if _is_call(node, "torch.Size") and len(node.args) == 1 and isinstance(node.args[0], (ast.List, ast.Tuple)):
+            return "[" + ", ".join(self.cint(e, {"num_tasks": "num_tasks"}, {}) for e in node.args[0].elts) + "]"
+        if ast.unparse(node) == "mvn.batch_shape":
+            return "batch_shape"
+        bad(node, "shape expression of from_repeated_mvn")
+
+    def from_batch_plan(self, fn, call, kw, cov):
+        """`from_batch_mvn`: normalisation / validation of task_dim, permutation of the mean, block dimension"""
+        atoms = {"len(batch_mvn.batch_shape)": "nbatch", "batch_mvn.mean.dim()": "meanDim", "batch_mvn.mean.ndimension()": "meanDim"}
+        env = {"task_dim": "task_dim"}
+        lines = []
+        for s in fn.body:
+            if isinstance(s, ast.Expr) and isinstance(s.value, ast.Constant) and isinstance(s.value.value, str):
+                continue
+            if isinstance(s, ast.Assign) and len(s.targets) == 1 and isinstance(s.targets[0], ast.Name) and s.targets[0].id != "res":
+                nm = s.targets[0].id
+                lines.append(f"let {lean_ident(nm)} := {self.cint(s.value, env, atoms)};")
+                env[nm] = lean_ident(nm)
+                continue
+            if isinstance(s, ast.If) and not s.orelse and len(s.body) == 1 and isinstance(s.body[0], ast.Raise):
+                lines.append(f"if {self.ccond(s.test, env, atoms)} then none else")
+                continue
+            if (isinstance(s, ast.Assign) and ast.unparse(s.targets[0]) == "res") or isinstance(s, ast.Return):
+                if isinstance(s, ast.Return) and ast.unparse(s.value) == "res":
+                    continue
+                if call is not (s.value):
+                    bad(s, "from_batch_mvn result")
+                m = kw.get("mean")
+                if not (isinstance(m, ast.Call) and ast.unparse(m.func) == "batch_mvn.mean.permute" and not m.keywords):
+                    bad(call, "from_batch_mvn mean (a permutation of the batch mean)")
+                parts = []
+                for a in m.args:
+                    if isinstance(a, ast.Starred) and _is_call(a.value, "range") and len(a.value.args) == 2:
+                        parts.append(f"pyRange {self.cint(a.value.args[0], env, atoms)} {self.cint(a.value.args[1], env, atoms)}")
+                    elif isinstance(a, ast.Starred):
+                        bad(a, "permutation argument")
+                    else:
+                        parts.append(f"[{self.cint(a, env, atoms)}]")
+                blockdim = self.cint(cov.keywords[0].value, env, atoms)
+                lines.append(f"some ({' ++ '.join(parts)}, {blockdim})")
+                self.batch_plan = "\n".join(lines)
+                self.batch_plan_done = True
+                continue
+            bad(s, "statement in from_batch_mvn")
+        if not getattr(self, "batch_plan_done", False):
+            bad(fn, "from_batch_mvn builds no result")
 
     # ------------------------------------------------------------------ emit
     def emit(self):
@@ -1182,6 +1307,7 @@ class Translator:
         L.append("-/")
         L.append("import GPVerif.Model.MTIndex")
         L.append("import GPVerif.Model.MTBatch")
+        L.append("import GPVerif.Model.MTCtor")
         L.append("")
         L.append("set_option linter.unusedVariables false")
         L.append("")
@@ -1262,13 +1388,19 @@ class Translator:
             L.append(f"def {nm} (inter : Bool) (n t : Int) : List Int := "
                      f"if inter then arange {' '.join(a)} else arange {' '.join(b)}")
         L.append("")
+        ra, ca = self.di_axes
+        L.append("/-! `to_data_independent_dist`: entry (i, x, y) of the result is covariance[data_indices[i] + task_indices[diRowTask x y], "
+                 "data_indices[i] + task_indices[diColTask x y]] (which result axis each `unsqueeze` makes the task index follow) -/")
+        L.append(f"def diRowTask (x y : Int) : Int := {ra}")
+        L.append(f"def diColTask (x y : Int) : Int := {ca}")
+        L.append("")
         L.append("/-! view / transpose pairs: `mean`, `variance`, `rsample` (result), `get_base_samples` read the stored flat "
                  "vector `loc` as an n × t matrix; `__init__` (ctorLoc) and `log_prob` (logProbArg) flatten an n × t matrix -/")
         for nm in ("meanView", "varianceView", "rsampleView", "baseSamplesView"):
             a, b = self.view_defs[nm][1]
             L.append(f"def {nm} {{α : Type}} (inter : Bool) (n t : Int) (loc : Int → α) : Int → Int → α :=\n"
                      f"  if inter then {a} else {b}")
-        for nm, arg in (("ctorLoc", "mean"), ("logProbArg", "value")):
+        for nm, arg in (("ctorLoc", "mean"), ("logProbArg", "value"), ("baseSamplesArg", "base")):
             a, b = self.view_defs[nm][1]
             L.append(f"def {nm} {{α : Type}} (inter : Bool) (n t : Int) ({arg} : Int → Int → α) : Int → α :=\n"
                      f"  if inter then {a} else {b}")
@@ -1277,6 +1409,19 @@ class Translator:
         for nm in ("fromBatchMvn", "fromIndependentMvns", "fromRepeatedMvn"):
             op, inter = self.ctors[nm]
             L.append(f"def {nm} : BlockOp × Bool := ({op}, {inter})")
+        L.append("")
+        L.append("/-- `from_batch_mvn`: (permutation applied to the batch mean, block dimension of the covariance) for a batch "
+                 "MVN with `nbatch` batch dimensions whose mean has `meanDim` dimensions; `none` = `ValueError` -/")
+        L.append("def fromBatchMvnPlan (nbatch meanDim task_dim : Int) : Option (List Int × Int) :=")
+        L.append(indent_term(self.batch_plan, 2))
+        sd, ud, cd, bd = self.indep_plan
+        L.append("/-- `from_independent_mvns`: dimension of `torch.stack` of the means, of `unsqueeze` and `CatLinearOperator` of the "
+                 "task covariances, and the block dimension -/")
+        L.append(f"def fromIndependentPlan : Int × Int × Int × Int := ({sd}, {ud}, {cd}, {bd})")
+        shp, td = self.repeated_plan
+        L.append("/-- `from_repeated_mvn`: the shape the MVN is expanded to, and the task dimension handed to `from_batch_mvn` -/")
+        L.append(f"def fromRepeatedShape (num_tasks : Int) (batch_shape : List Int) : List Int := {shp}")
+        L.append(f"def fromRepeatedTaskDim : Int := {td}")
         L.append("")
         L.append("/-- names of the dispatch branches, in source order -/")
         L.append("def branchNames : List String := [" + ", ".join(f'"{b["name"]}"' for b in self.branches) + "]")
